@@ -124,6 +124,15 @@ func (l *LSTM) Apply(inputs []tensor.Tensor) ([]tensor.Tensor, error) {
 	// Reshape the hidden and cell tensor without the bidirectional dimension, as
 	// we do not support bidirectional yet. This is the dimension at
 	// index 0.
+	var ok bool
+	if Ht, ok = Ht.Clone().(tensor.Tensor); !ok {
+		return nil, ops.ErrTypeAssert("tensor.Tensor", Ht)
+	}
+
+	if Ct, ok = Ct.Clone().(tensor.Tensor); !ok {
+		return nil, ops.ErrTypeAssert("tensor.Tensor", Ct)
+	}
+
 	if err = Ht.Reshape(Ht.Shape().Clone()[1:]...); err != nil {
 		return nil, err
 	}
